@@ -5,8 +5,12 @@ import PlumpyModel.Ports.ProofOut
 Model: `Ports.out` (`Process.out`), `Ports.getPort` (`PortNamespace.get_port(..., create_dynamically=True)`),
 `Ports.store` (the storage loop of `out`), `Ports.onFinish` / `Ports.toFinished` (`Process.on_finish` and the
 `StateEntryFailed` branch of `StateMachine.transition_to`), in `PlumpyModel/Ports/Out.lean`; validation is the C11 model.
-Specification: `AcceptsOut`, `resolveRef`, `Storable`, `getPath`, `replay` (`PlumpyModel/Ports/SpecOut.lean`) and
+Specification: `AcceptsOut`, `resolveRef`, `Storable`, `V.isDict`, `getPath`, `replay` (`PlumpyModel/Ports/SpecOut.lean`) and
 `ConformsPort` (`Spec.lean`).
+
+Values are atoms, plain dicts (`V.dict false _`) and immutable mappings (`V.dict true _`, an `AttributesFrozendict`).  An emitted
+immutable mapping is a VALUE: a leaf for the recursion of `validate_dynamic_ports` (`DynOk`), no instance of `dict`, and no place to
+store below — the storage loop of `out` enters plain dicts only (`Storable`, `C12_out_place_taken`, `C12_immutable_is_value`).
 
 Quantification: every output spec (arbitrary port tree, every combination of types, validators, required flags,
 dynamic namespaces), every validator oracle, every state reached so far (the spec as extended by earlier calls, any
@@ -16,8 +20,8 @@ namespace), which `out` preserves (`C12_out_keeps_wf`).
 namespace Ports
 
 /-- **C12, first sentence.**  `out` stores the value exactly when the output spec (as it is at the time of the call)
-accepts it for that port, provided the place is free (no emitted non-mapping on the way — a condition on the outputs,
-not on the spec). -/
+accepts it for that port, provided the place is free (no emitted non-dict value on the way: neither an atom nor an immutable
+mapping — a condition on the outputs, not on the spec). -/
 theorem C12_out_stores_iff (vd : Nat → V → Bool) (st : OutSt) (hwf : wfPorts st.ports = true) (path : List String) (v : V) :
     (∃ d, (out vd st path v).2 = .ok d) ↔
       AcceptsOut vd st.top st.ports path v ∧ Storable st.outputs path.dropLast := by
@@ -68,12 +72,65 @@ theorem C12_out_failed (vd : Nat → V → Bool) (st : OutSt) (hwf : wfPorts st.
   rw [h] at hm
   refine ⟨hm.1, hm.2.1, ?_⟩
   rintro ⟨b, qs, hq⟩
-  rcases hm.2.2 b qs hq with ⟨h1, h2⟩ | ⟨h1, h2, h3⟩
+  rcases hm.2.2 b qs hq with ⟨h1, h2⟩ | ⟨h1, h2, h3, _⟩
   · left
     refine ⟨?_, h2⟩
     rintro ⟨b', qs', hq', hl⟩
     rw [hq] at hq'; cases hq'; exact h1 hl
   · right; exact ⟨⟨b, qs, hq, h1⟩, h2, h3⟩
+
+/-- **C12, the place is taken.**  When the spec accepts the value and `out` raises all the same, the reason is a value that is
+not a plain dict (an atom, or an immutable mapping that was emitted — at the top of the outputs or inside an emitted plain
+dict) found at a non-empty prefix `q` of the namespace part of the path; the error is `TypeError` when it sits exactly at
+the namespace (`value_in_the_way[name] = v`) and `AttributeError` when segments remain below it (`setdefault` on it). -/
+theorem C12_out_place_taken (vd : Nat → V → Bool) (st : OutSt) (hwf : wfPorts st.ports = true) (path : List String) (v : V)
+    (e : Err) (h : (out vd st path v).2 = .error e) (hacc : AcceptsOut vd st.top st.ports path v) :
+    ∃ q w rest, path.dropLast = q ++ rest ∧ q ≠ [] ∧
+      getPath (some (.dict false st.outputs)) q = some w ∧ w.isDict = false ∧
+      e = (if rest = [] then .typeError else .attributeError) := by
+  obtain ⟨_, _, hm⟩ := out_master vd st hwf path v
+  rw [h] at hm
+  obtain ⟨b, qs, hq, hl⟩ := hacc
+  rcases hm.2.2 b qs hq with ⟨h1, _⟩ | ⟨_, _, _, hs⟩
+  · exact absurd hl h1
+  · exact store_error_exact _ _ _ _ _ hs
+
+/-- **C12, an emitted immutable mapping is a value.**  Let an immutable mapping sit in the outputs at `q` (wherever: at the
+top or inside an emitted plain dict).  Then (1) every `out` whose namespace part runs through `q` raises — nothing is ever
+stored below it, whatever it contains; and (2) every `out` that succeeds and does not overwrite it (its path is not a
+prefix of `q`) leaves it exactly as it was emitted. -/
+theorem C12_immutable_is_value (vd : Nat → V → Bool) (st : OutSt) (hwf : wfPorts st.ports = true) (path : List String)
+    (hpath : path ≠ []) (v : V) (q : List String) (items : Items)
+    (hq : getPath (some (.dict false st.outputs)) q = some (.dict true items)) :
+    (q <+: path.dropLast → ∃ e, (out vd st path v).2 = .error e) ∧
+    (∀ d, (out vd st path v).2 = .ok d → ¬ path <+: q →
+      getPath (some (.dict false (out vd st path v).1.outputs)) q = some (.dict true items)) := by
+  obtain ⟨_, _, hm⟩ := out_master vd st hwf path v
+  have blocked : q <+: path.dropLast → ∀ o, store st.outputs path.dropLast (path.getLastD "") v ≠ .ok o := by
+    intro hp o ho
+    obtain ⟨e, he⟩ := store_blocked (path.getLastD "") v path.dropLast st.outputs q _ hp hq rfl
+    rw [ho] at he; cases he
+  have hp : path.dropLast ++ [path.getLastD ""] = path := dropLast_append_getLastD path hpath
+  constructor
+  · intro hpre
+    cases hr : (out vd st path v).2 with
+    | error e => exact ⟨e, rfl⟩
+    | ok d =>
+      rw [hr] at hm
+      obtain ⟨_, _, _, _, _, h4, _⟩ := hm
+      exact absurd h4 (blocked hpre _)
+  · intro d hd hnp
+    rw [hd] at hm
+    obtain ⟨_, _, _, _, _, h4, _⟩ := hm
+    have hnq : ¬ q <+: path := by
+      intro hqp
+      rw [← hp, List.prefix_concat_iff] at hqp
+      rcases hqp with heq | hpre
+      · exact hnp (by rw [heq, hp]; exact List.prefix_refl _)
+      · exact blocked hpre _ h4
+    have := store_getPath_other _ _ _ _ _ false q h4
+    rw [hp] at this
+    rw [this hnq hnp, hq]
 
 /-- `out` keeps the (extended) output spec well formed and never touches the attributes of `spec.outputs` -/
 theorem C12_out_keeps_wf (vd : Nat → V → Bool) (st : OutSt) (hwf : wfPorts st.ports = true) (path : List String) (v : V) :
@@ -150,6 +207,58 @@ example : (out oVd oSt ["x"] (.atom 1 1)).2 = .error (.validation "x") := by dec
 example : (out oVd oSt ["ns", "zz"] (.atom 0 1)).2 = .error (.validation "ns") := by decide
 example : (out oVd oSt ["x", "y", "z"] (.atom 0 1)).2 = .error .attributeError := by decide
 example : (out oVd (out oVd oSt ["k"] (.atom 0 1)).1 ["k", "l"] (.atom 0 1)).2 = .error .typeError := by decide
+/-! immutable mappings among the emitted values -/
+def oTopU : NsA := { oTop with validType := none }
+def oStU : OutSt := { top := oTopU, ports := oPorts, outputs := [], emitted := [] }
+/-- the emitted immutable mapping `<a=1>` at `k`, and one inside an emitted plain dict at `m` (`m = {a = <b={}>}`) -/
+def oStF : OutSt := (outs oVd oStU [(["k"], .dict true [("a", .atom 0 1)]),
+  (["m"], .dict false [("a", .dict true [("b", .dict false [])])])]).1
+
+/-- an untyped dynamic namespace accepts an immutable mapping, which is stored as it is (and reported as such) -/
+example : (out oVd oStU ["k"] (.dict true [("a", .atom 0 1)])).2 = .ok true ∧
+    (out oVd oStU ["k"] (.dict true [("a", .atom 0 1)])).1.outputs = [("k", .dict true [("a", .atom 0 1)])] ∧
+    (out oVd oStU ["k"] (.dict true [("a", .atom 0 1)])).1.emitted = [(["k"], .dict true [("a", .atom 0 1)], true)] := by decide
+/-- a typed one rejects it — it is a leaf that is not of the type, whatever its items (ints here) — also inside a plain dict,
+while the same items in plain dicts are accepted -/
+example : (out oVd oSt ["k"] (.dict true [("a", .atom 0 1)])).2 = .error (.validation "outputs.k") ∧
+    (out oVd oSt ["k"] (.dict false [("b", .dict true [("a", .atom 0 1)])])).2 = .error (.validation "outputs.k.outputs.b") ∧
+    (out oVd oSt ["k"] (.dict false [("b", .dict false [("a", .atom 0 1)])])).2 = .ok true := by decide
+/-- nothing is stored below an immutable mapping: directly below it `TypeError`, deeper `AttributeError` — at an existing key as at
+a new one, at the top of the outputs as inside an emitted plain dict (whose own plain levels can still be extended) — and the
+outputs stay as they were -/
+example : (out oVd oStF ["k", "a"] (.atom 0 2)).2 = .error .typeError ∧
+    (out oVd oStF ["k", "z"] (.atom 0 2)).2 = .error .typeError ∧
+    (out oVd oStF ["k", "a", "b"] (.atom 0 2)).2 = .error .attributeError ∧
+    (out oVd oStF ["m", "a", "z"] (.atom 0 2)).2 = .error .typeError ∧
+    (out oVd oStF ["m", "a", "b", "c"] (.atom 0 2)).2 = .error .attributeError ∧
+    (out oVd oStF ["m", "a", "b", "c", "d"] (.atom 0 2)).2 = .error .attributeError ∧
+    (out oVd oStF ["m", "a", "b", "c"] (.atom 0 2)).1.outputs = oStF.outputs ∧
+    (out oVd oStF ["m", "z"] (.atom 0 2)).2 = .ok true := by decide
+/-- the hypotheses of `C12_out_place_taken` and `C12_immutable_is_value` hold there: the spec accepts `k.z = 2`, the call
+raises, and the value in the way is the immutable mapping at `k`; emitting at `k` again replaces it -/
+example : AcceptsOut oVd oStF.top oStF.ports ["k", "z"] (.atom 0 2) :=
+  ⟨oTopU, [], rfl, rfl, fun _ h => by cases h⟩
+example : getPath (some (.dict false oStF.outputs)) ["k"] = some (.dict true [("a", .atom 0 1)]) ∧
+    getPath (some (.dict false oStF.outputs)) ["m", "a"] = some (.dict true [("b", .dict false [])]) ∧
+    wfPorts oStF.ports = true := by decide
+/-- the two theorems applied to it -/
+example : ∃ q w rest, ["k"] = q ++ rest ∧ q ≠ [] ∧ getPath (some (.dict false oStF.outputs)) q = some w ∧ w.isDict = false ∧
+    Err.typeError = (if rest = [] then .typeError else .attributeError) :=
+  C12_out_place_taken oVd oStF (by decide) ["k", "z"] (.atom 0 2) .typeError (by decide) ⟨oTopU, [], rfl, rfl, fun _ h => by cases h⟩
+example : ∃ e, (out oVd oStF ["m", "a", "b", "c"] (.atom 0 2)).2 = .error e :=
+  (C12_immutable_is_value oVd oStF (by decide) ["m", "a", "b", "c"] (by simp) (.atom 0 2) ["m", "a"] [("b", .dict false [])] (by decide)).1 ⟨["b"], rfl⟩
+example : getPath (some (.dict false (out oVd oStF ["m", "z"] (.atom 0 2)).1.outputs)) ["m", "a"] = some (.dict true [("b", .dict false [])]) :=
+  (C12_immutable_is_value oVd oStF (by decide) ["m", "z"] (by simp) (.atom 0 2) ["m", "a"] [("b", .dict false [])] (by decide)).2 true (by decide)
+    (by rintro ⟨t, ht⟩; simp at ht)
+example : (out oVd oStF ["k"] (.dict false [])).2 = .ok true ∧
+    (out oVd (out oVd oStF ["k"] (.dict false [])).1 ["k", "z"] (.atom 0 2)).2 = .ok true := by decide
+/-- at the end the immutable mapping is validated as the value it is: fine in the untyped namespace (with `x` emitted the
+process is successful); but the failed `out('k.a.b', …)` has made `k` and `k.a` namespaces of the spec, and `<a=1>` is not a
+value for the namespace `k` (its entry `a` is an int where a mapping is due) -/
+example : (toFinished oVd (out oVd oStF ["x"] (.atom 0 1)).1 7 true).successful = true ∧
+    (toFinished oVd (out oVd oStF ["x"] (.atom 0 1)).1 7 true).future = some (out oVd oStF ["x"] (.atom 0 1)).1.outputs ∧
+    (toFinished oVd (outs oVd oStF [(["x"], .atom 0 1), (["k", "a", "b"], .atom 0 2)]).1 7 true).successful = false := by decide
+
 /-- finishing: required `x` missing → FINISHED, result kept, unsuccessful; with `x` emitted → successful;
 an unsuccessful step result stays unsuccessful -/
 example : toFinished oVd oSt 7 true = { label := .finished, result := 7, successful := false, future := some [], listener := some [] } := by decide
